@@ -1424,6 +1424,17 @@ func (x *affExec) loop(s ast.Stmt, st *affState) []*affState {
 			if id := rootIdentOf(ix.Index); id != nil && (id.Name == ls.valVar || id.Name == ls.keyVar) {
 				continue
 			}
+			// m[xs[i]]: the key is a function of the loop variable
+			perElem := false
+			ast.Inspect(ix.Index, func(n ast.Node) bool {
+				if id, ok := n.(*ast.Ident); ok && id.Name != "_" && (id.Name == ls.valVar || id.Name == ls.keyVar) {
+					perElem = true
+				}
+				return true
+			})
+			if perElem {
+				continue
+			}
 		}
 		key := x.lvalueKey(c, inner)
 		if preCells[key] {
